@@ -1,6 +1,6 @@
 (* Proofs about the HTTP/2 response-writer model (C38). *)
 From Coq Require Import List ZArith Bool Lia.
-From Bfe Require Import lib.Val lib.Bytes model.H2Resp run.RunC38.
+From Bfe Require Import lib.Val lib.ValProofs lib.Bytes model.H2Resp run.RunC38.
 Import ListNotations.
 Open Scope Z_scope.
 
@@ -41,7 +41,7 @@ Lemma body_frames_state e done p s1 fr s2 :
   sentH s2 = sentH s1 /\ buf s2 = buf s1 /\ berr s2 = berr s1.
 Proof.
   unfold body_frames.
-  destruct (if done then promote (hh s1) (trailers s1) else (hh s1, trailers s1)) as [h2 tr2].
+  destruct (if done then promote (e_perm e) (hh s1) (trailers s1) else (hh s1, trailers s1)) as [h2 tr2].
   destruct (done && match tr2 with [] => false | _ => true end).
   - destruct (encode_trailers (e_hop e) h2 tr2); intro H; inversion H; subst; simpl; repeat split; reflexivity.
   - intro H; inversion H; subst; simpl; repeat split; reflexivity.
@@ -60,7 +60,7 @@ Lemma body_frames_done e p s1 fr s2 :
   body_frames e true p s1 = (fr, s2) -> ends_once fr.
 Proof.
   unfold body_frames.
-  destruct (promote (hh s1) (trailers s1)) as [h2 tr2].
+  destruct (promote (e_perm e) (hh s1) (trailers s1)) as [h2 tr2].
   remember (encode_trailers (e_hop e) h2 tr2) as enc eqn:Eenc. clear Eenc.
   destruct tr2 as [|t tr2]; cbn [andb negb].
   - rewrite orb_true_r. intro H. inversion H; subst.
@@ -382,7 +382,7 @@ Definition b_Foo := [70;111;111].
 Definition b_hi := [104;105].
 Definition b_Connection := [67;111;110;110;101;99;116;105;111;110].
 Definition b_close := [99;108;111;115;101].
-Definition env_get := mkE false 4096 [b_Connection].
+Definition env_get := mkE false 4096 [b_Connection] false 0 BIG BIG.
 
 (* Trailer: Foo declared, Foo never set (the class that used to lose END_STREAM): the stream now ends with an empty
    DATA frame *)
@@ -416,10 +416,10 @@ Lemma body_frames_data e done p s1 fr s2 :
   body_frames e done p s1 = (fr, s2) -> data_of fr = p.
 Proof.
   unfold body_frames.
-  destruct (if done then promote (hh s1) (trailers s1) else (hh s1, trailers s1)) as [h2 tr2].
+  destruct (if done then promote (e_perm e) (hh s1) (trailers s1) else (hh s1, trailers s1)) as [h2 tr2].
   set (es := done && negb match tr2 with [] => false | _ => true end).
   assert (Hfr2 : data_of (if (0 <? blen p) || es then [FD es p] else []) = p).
-  { destruct (0 <? blen p) eqn:E; simpl.
+  { destruct (0 <? blen p) eqn:E; cbn [orb].
     - unfold data_of. simpl. apply app_nil_r.
     - apply Z.ltb_ge in E. assert (p = []) by (apply blen_nil; unfold blen in *; lia). subst p.
       destruct es; reflexivity. }
@@ -819,9 +819,9 @@ Proof.
   - split; [exact A|]. split; [exact Hsnp|]. simpl. apply declare_snapshot_canon, C.
 Qed.
 
-Lemma promote_ok h tr :
+Lemma promote_ok n h tr :
   Forall canonical (hkeys h) -> Forall canonical tr ->
-  Forall canonical (hkeys (fst (promote h tr))) /\ Forall canonical (snd (promote h tr)).
+  Forall canonical (hkeys (fst (promote n h tr))) /\ Forall canonical (snd (promote n h tr)).
 Proof.
   intros Hh Ht. unfold promote.
   assert (G : forall l acc, Forall canonical (hkeys (fst acc)) -> Forall canonical (snd acc) ->
@@ -834,8 +834,8 @@ Proof.
     apply IH; destruct (is_prefix s_TrailerPrefix k); cbn [fst snd]; try assumption.
     - apply hput_canon; [exact A|apply canon_idem].
     - apply declare_canon, B. }
-  specialize (G h (h, tr) Hh Ht). cbv zeta in G.
-  destruct (fold_left _ h (h, tr)) as [h' tr'] eqn:E. simpl in G. destruct G as [G1 G2]. simpl.
+  specialize (G (perm_nth n (filter (fun e => is_prefix s_TrailerPrefix (fst e)) h)) (h, tr) Hh Ht). cbv zeta in G.
+  destruct (fold_left _ (perm_nth n (filter (fun e => is_prefix s_TrailerPrefix (fst e)) h)) (h, tr)) as [h' tr'] eqn:E. simpl in G. destruct G as [G1 G2]. simpl.
   split; [exact G1|].
   destruct tr' as [|a [|b r]]; try exact G2.
   apply Forall_forall. intros x Hx. apply sort_keys_In in Hx. rewrite Forall_forall in G2. apply G2, Hx.
@@ -846,10 +846,10 @@ Lemma body_frames_ok e done p s1 fr s2 :
   frames_ok fr /\ st_ok (e_hop e) s2.
 Proof.
   intros Hhop [A [B C]]. unfold body_frames.
-  assert (Hp : Forall canonical (hkeys (fst (if done then promote (hh s1) (trailers s1) else (hh s1, trailers s1))))
-            /\ Forall canonical (snd (if done then promote (hh s1) (trailers s1) else (hh s1, trailers s1))))
+  assert (Hp : Forall canonical (hkeys (fst (if done then promote (e_perm e) (hh s1) (trailers s1) else (hh s1, trailers s1))))
+            /\ Forall canonical (snd (if done then promote (e_perm e) (hh s1) (trailers s1) else (hh s1, trailers s1))))
     by (destruct done; [apply promote_ok; assumption|split; assumption]).
-  destruct (if done then promote (hh s1) (trailers s1) else (hh s1, trailers s1)) as [h2 tr2]. simpl in Hp.
+  destruct (if done then promote (e_perm e) (hh s1) (trailers s1) else (hh s1, trailers s1)) as [h2 tr2]. simpl in Hp.
   destruct Hp as [P1 P2].
   assert (Hfr2 : forall es, frames_ok (if (0 <? blen p) || es then [FD es p] else []))
     by (intro es; destruct ((0 <? blen p) || es); [apply frames_ok_one; exact I|apply frames_ok_nil]).
@@ -1048,7 +1048,7 @@ Lemma body_frames_wq e done p s1 fr s2 :
   body_frames e done p s1 = (fr, s2) -> wroteH s2 = wroteH s1 /\ status s2 = status s1.
 Proof.
   unfold body_frames.
-  destruct (if done then promote (hh s1) (trailers s1) else (hh s1, trailers s1)) as [h2 tr2].
+  destruct (if done then promote (e_perm e) (hh s1) (trailers s1) else (hh s1, trailers s1)) as [h2 tr2].
   destruct (done && match tr2 with [] => false | _ => true end).
   - destruct (encode_trailers (e_hop e) h2 tr2); intro H; inversion H; subst; simpl; split; reflexivity.
   - intro H; inversion H; subst; simpl; split; reflexivity.
@@ -1064,7 +1064,7 @@ Lemma body_frames_last e p s1 fr s2 :
   body_frames e true p s1 = (fr, s2) -> exists pre l, fr = pre ++ [l] /\ all_FD pre /\ frame_nostat l.
 Proof.
   unfold body_frames.
-  destruct (promote (hh s1) (trailers s1)) as [h2 tr2].
+  destruct (promote (e_perm e) (hh s1) (trailers s1)) as [h2 tr2].
   remember (encode_trailers (e_hop e) h2 tr2) as enc eqn:Eenc.
   assert (Hen : nostat enc = true) by (subst enc; apply encode_nostat).
   clear Eenc.
@@ -1408,16 +1408,177 @@ Proof.
   - erewrite forallb_ext; [exact C|]. intros f. rewrite pj_isFH. reflexivity.
 Qed.
 
-Theorem prop_C38_central i : wf_C38 i = true -> kf_C38 i = 0 -> prop_C38 i (run_C38 i) = true.
+(* ---------- the scheduler pass (chunking by window and maximum frame size) preserves the stream shape ---------- *)
+Definition is_FD_noend (f : frame) : Prop := exists d, f = FD false d.
+Lemma chunk_shape fuel : forall g w es p,
+  exists pre lastc, fst (chunk_data fuel g w es p) = pre ++ [FD es lastc]
+    /\ (forall f, In f pre -> is_FD_noend f) /\ concat (map f_data pre) ++ lastc = p.
 Proof.
-  intros Hwf _. unfold wf_C38 in Hwf. unfold prop_C38, run_C38.
-  destruct (dec_input i) as [[e ops]|] eqn:Hd; [|discriminate].
+  induction fuel as [|f IH]; intros g w es p; cbn [chunk_data].
+  - exists [], p. split; [reflexivity|]. split; [intros x []|reflexivity].
+  - destruct p as [|b0 br]; [exists [], []; split; [reflexivity|]; split; [intros x []|reflexivity]|].
+    set (p := b0 :: br). set (a := Z.min w max_frame).
+    destruct (a <? blen p).
+    + destruct (IH g (after_take g w a) es (skipn (Z.to_nat a) p)) as [pre [lastc [E [Hp Hc]]]].
+      destruct (chunk_data f g (after_take g w a) es (skipn (Z.to_nat a) p)) as [r w'] eqn:Ec. cbn [fst] in *.
+      exists (FD false (firstn (Z.to_nat a) p) :: pre), lastc. rewrite E. split; [reflexivity|]. split.
+      * intros x [<-|Hx]; [eexists; reflexivity|apply Hp, Hx].
+      * cbn [map f_data concat]. rewrite <- app_assoc, Hc. apply firstn_skipn.
+    + exists [], p. split; [reflexivity|]. split; [intros x []|reflexivity].
+Qed.
+
+(* one wire pass over a list = pass over the first part, then over the second with the window left *)
+Lemma wire_app g : forall a w b, exists w', wire_frames g w (a ++ b) = wire_frames g w a ++ wire_frames g w' b.
+Proof.
+  induction a as [|x a IH]; intros w b; [exists w; reflexivity|].
+  destruct x as [e fl|e p]; cbn [app wire_frames].
+  - destruct (IH w b) as [w' E]. exists w'. rewrite E. reflexivity.
+  - destruct (chunk_data (length p) g w e p) as [c w1]. destruct (IH w1 b) as [w' E]. exists w'.
+    rewrite E, app_assoc. reflexivity.
+Qed.
+
+Lemma wire_FH_in g : forall fs w e fl, In (FH e fl) (wire_frames g w fs) -> In (FH e fl) fs.
+Proof.
+  induction fs as [|x r IH]; intros w e fl H; [destruct H|].
+  destruct x as [e1 fl1|e1 p]; cbn [wire_frames] in H.
+  - destruct H as [H|H]; [left; exact H|right; eapply IH; exact H].
+  - destruct (chunk_data (length p) g w e1 p) as [c w1] eqn:Ec.
+    apply in_app_or in H. destruct H as [H|H]; [|right; eapply IH; exact H].
+    exfalso. destruct (chunk_shape (length p) g w e1 p) as [pre [lastc [E [Hp _]]]]. rewrite Ec in E. cbn [fst] in E.
+    rewrite E in H. apply in_app_or in H. destruct H as [H|[H|[]]]; [destruct (Hp _ H) as [d Hd]; discriminate|discriminate].
+Qed.
+
+Lemma wire_all_FD g : forall fs w, all_FD fs -> all_FD (wire_frames g w fs).
+Proof.
+  intros fs w H f Hf. destruct f as [e fl|e d]; [|reflexivity].
+  apply wire_FH_in in Hf. apply (H _ Hf).
+Qed.
+
+Lemma wire_data g : forall fs w, data_of (wire_frames g w fs) = data_of fs.
+Proof.
+  induction fs as [|x r IH]; intros w; [reflexivity|].
+  destruct x as [e fl|e p]; cbn [wire_frames].
+  - change (FH e fl :: wire_frames g w r) with ([FH e fl] ++ wire_frames g w r).
+    change (FH e fl :: r) with ([FH e fl] ++ r). rewrite !data_app, IH. reflexivity.
+  - destruct (chunk_data (length p) g w e p) as [c w1] eqn:Ec.
+    destruct (chunk_shape (length p) g w e p) as [pre [lastc [E [_ Hc]]]]. rewrite Ec in E. cbn [fst] in E.
+    change (FD e p :: r) with ([FD e p] ++ r). rewrite !data_app, IH. f_equal.
+    rewrite E, data_app. unfold data_of. cbn [map f_data concat]. rewrite !app_nil_r. exact Hc.
+Qed.
+
+Lemma count_end_app a b : count_end (a ++ b) = (count_end a + count_end b)%nat.
+Proof. unfold count_end. rewrite filter_app, app_length. reflexivity. Qed.
+Lemma wire_count_end g : forall fs w, count_end (wire_frames g w fs) = count_end fs.
+Proof.
+  induction fs as [|x r IH]; intros w; [reflexivity|].
+  destruct x as [e fl|e p]; cbn [wire_frames].
+  - change (FH e fl :: wire_frames g w r) with ([FH e fl] ++ wire_frames g w r).
+    change (FH e fl :: r) with ([FH e fl] ++ r). rewrite !count_end_app, IH. reflexivity.
+  - destruct (chunk_data (length p) g w e p) as [c w1] eqn:Ec.
+    destruct (chunk_shape (length p) g w e p) as [pre [lastc [E [Hp _]]]]. rewrite Ec in E. cbn [fst] in E.
+    change (FD e p :: r) with ([FD e p] ++ r). rewrite !count_end_app, IH. f_equal.
+    rewrite E, count_end_app.
+    assert (Hn : count_end pre = 0%nat).
+    { unfold count_end. clear -Hp. induction pre as [|y pre IHp]; [reflexivity|]. cbn [filter].
+      destruct (Hp y (or_introl eq_refl)) as [d ->]. cbn [f_end]. apply IHp. intros z Hz. apply Hp. right. exact Hz. }
+    rewrite Hn. unfold count_end. cbn [filter f_end]. destruct e; reflexivity.
+Qed.
+
+Lemma wire_nonempty g fs w : fs <> [] -> wire_frames g w fs <> [].
+Proof.
+  destruct fs as [|x r]; [intro H; contradiction|]. intros _.
+  destruct x as [e fl|e p]; cbn [wire_frames]; [discriminate|].
+  destruct (chunk_data (length p) g w e p) as [c w1] eqn:Ec.
+  destruct (chunk_shape (length p) g w e p) as [pre [lastc [E _]]]. rewrite Ec in E. cbn [fst] in E. rewrite E.
+  destruct pre; discriminate.
+Qed.
+
+Lemma last_app_nonempty {A} (a b : list A) d : b <> [] -> last (a ++ b) d = last b d.
+Proof.
+  intro Hb. induction a as [|x a IH]; [reflexivity|]. cbn [app]. destruct (a ++ b) eqn:E.
+  - destruct a; [simpl in E; contradiction|discriminate].
+  - rewrite <- E in *. simpl. rewrite E. rewrite <- E. exact IH.
+Qed.
+
+Lemma wire_last_end g : forall fs w d, fs <> [] -> f_end (last (wire_frames g w fs) d) = f_end (last fs d).
+Proof.
+  induction fs as [|x r IH]; intros w d Hne; [contradiction|].
+  destruct r as [|y r].
+  - destruct x as [e fl|e p]; cbn [wire_frames]; [reflexivity|].
+    destruct (chunk_data (length p) g w e p) as [c w1] eqn:Ec.
+    destruct (chunk_shape (length p) g w e p) as [pre [lastc [E _]]]. rewrite Ec in E. cbn [fst] in E.
+    rewrite app_nil_r, E, last_last. reflexivity.
+  - assert (Hyr : y :: r <> []) by discriminate.
+    change (last (x :: y :: r) d) with (last (y :: r) d).
+    remember (y :: r) as yr eqn:Eyr.
+    destruct x as [e fl|e p]; cbn [wire_frames].
+    + change (FH e fl :: wire_frames g w yr) with ([FH e fl] ++ wire_frames g w yr).
+      rewrite last_app_nonempty by (apply wire_nonempty; exact Hyr). apply IH. exact Hyr.
+    + destruct (chunk_data (length p) g w e p) as [c w1].
+      rewrite last_app_nonempty by (apply wire_nonempty; exact Hyr). apply IH. exact Hyr.
+Qed.
+
+Lemma forallb_In {A} (f : A -> bool) l : (forall x, In x l -> f x = true) -> forallb f l = true.
+Proof. intro H. apply forallb_forall. exact H. Qed.
+
+Lemma stream_ok_wire g w S body fs : stream_ok S body fs = true -> stream_ok S body (wire_frames g w fs) = true.
+Proof.
+  destruct fs as [|f rest]; [discriminate|]. destruct f as [e0 fl0|]; [|discriminate].
+  destruct fl0 as [|[k0 v0] fl0]; [discriminate|].
+  intro H. cbn [stream_ok] in H.
+  repeat (apply andb_true_iff in H; let H' := fresh "C" in destruct H as [H H']).
+  cbn [wire_frames stream_ok].
+  change (FH e0 ((k0, v0) :: fl0) :: wire_frames g w rest) with (wire_frames g w (FH e0 ((k0, v0) :: fl0) :: rest)).
+  pose (sp := andb_true_iff).
+  apply sp; split; [apply sp; split; [apply sp; split; [apply sp; split; [apply sp; split; [apply sp; split; [apply sp; split; [apply sp; split|]|]|]|]|]|]|]; try assumption.
+  - apply forallb_In. intros x Hx. destruct x as [e1 fl1|]; [|reflexivity].
+    apply wire_FH_in in Hx. rewrite forallb_forall in C4. apply (C4 _ Hx).
+  - rewrite wire_count_end. exact C3.
+  - rewrite wire_last_end by discriminate. exact C2.
+  - apply forallb_In. intros x Hx. destruct x as [e1 fl1|]; [|reflexivity].
+    apply wire_FH_in in Hx. rewrite forallb_forall in C1. apply (C1 _ Hx).
+  - change (concat (map f_data (wire_frames g w (FH e0 ((k0, v0) :: fl0) :: rest)))) with
+      (data_of (wire_frames g w (FH e0 ((k0, v0) :: fl0) :: rest))). rewrite wire_data. exact C0.
+  - (* trailers stay last *)
+    assert (Hfd : all_FD (removelast rest))
+      by (intros x Hx; rewrite forallb_forall in C; specialize (C _ Hx); apply negb_true_iff in C; exact C).
+    apply forallb_In. intros x Hx. apply negb_true_iff.
+    destruct rest as [|q0 qs] eqn:Erest; [destruct Hx|].
+    assert (Hne : q0 :: qs <> []) by discriminate.
+    destruct (exists_last Hne) as [rest' [r0 Er]]. rewrite Er in *. clear Hne.
+    rewrite removelast_last in Hfd.
+    destruct (wire_app g rest' w [r0]) as [w' E]. rewrite E in Hx.
+    destruct r0 as [e1 fl1|e1 p1]; cbn [wire_frames] in Hx.
+    + rewrite removelast_last in Hx. apply (wire_all_FD g rest' w Hfd _ Hx).
+    + destruct (chunk_data (length p1) g w' e1 p1) as [c w1] eqn:Ec. rewrite app_nil_r in Hx.
+      assert (Hall : all_FD (wire_frames g w rest' ++ c)).
+      { apply all_FD_app; [apply wire_all_FD, Hfd|].
+        destruct (chunk_shape (length p1) g w' e1 p1) as [pre [lastc [E2 [Hp _]]]]. rewrite Ec in E2. cbn [fst] in E2.
+        rewrite E2. apply all_FD_app; [|apply all_FD_one]. intros y Hy. destruct (Hp _ Hy) as [d ->]. reflexivity. }
+      apply (all_FD_removelast _ Hall _ Hx).
+Qed.
+
+Lemma strip_rst_after e l : strip_rst (e_open e) (map enc_frame l ++ rst_after e) = map enc_frame l.
+Proof.
+  unfold strip_rst, rst_after. destruct (e_open e); [|apply app_nil_r].
+  rewrite rev_app_distr. cbn [rev app]. unfold is_rst_no_error.
+  replace (val_eqb RST_NO_ERROR RST_NO_ERROR) with true by reflexivity. apply rev_involutive.
+Qed.
+
+Theorem prop_C38_central_perm n i : wf_C38 i = true -> kf_C38 i = 0 -> prop_C38 i (run_perm n i) = true.
+Proof.
+  intros Hwf _. unfold wf_C38 in Hwf. unfold prop_C38, run_perm.
+  destruct (dec_input i) as [[e0 ops]|] eqn:Hd; [|discriminate].
   apply andb_true_iff in Hwf. destruct Hwf as [Hhop Hops].
+  change (e_open e0) with (e_open (with_perm n e0)).
+  change (prop_frames e0 ops) with (prop_frames (with_perm n e0) ops).
+  change (hop_okb (e_hop e0)) with (hop_okb (e_hop (with_perm n e0))) in Hhop.
+  set (e := with_perm n e0) in *. cbv zeta.
   destruct (run_handler e ops) as [[fr res] s] eqn:Hr.
-  rewrite dec_enc_frames, as_LZ_vLZ. unfold prop_frames.
+  rewrite strip_rst_after, dec_enc_frames, as_LZ_vLZ. unfold prop_frames.
   destruct (body_exact _ _ _ _ _ Hr) as [Hlen Hdata].
   rewrite Hlen, Nat.eqb_refl. cbn [andb].
-  apply stream_ok_pj.
+  apply stream_ok_pj. apply stream_ok_wire.
   pose proof (spec_status_range ops Hops) as HS.
   assert (Hfr : frames_of e ops = fr) by (unfold frames_of; rewrite Hr; reflexivity).
   destruct (status_first_trailers_last e ops) as [es [fl [rest [E [Hfd [Hn Hro]]]]]]. rewrite Hfr in E.
@@ -1443,6 +1604,24 @@ Proof.
   - apply forallb_forall. intros f Hf. rewrite (Hfd f Hf). reflexivity.
 Qed.
 
+Theorem prop_C38_central i : wf_C38 i = true -> kf_C38 i = 0 -> prop_C38 i (run_C38 i) = true.
+Proof. apply prop_C38_central_perm. Qed.
+
+(* the correspondence predicate accepts the model's own observation, for every iteration order it enumerates *)
+Lemma agree_C38_perm n i : In n perms -> agree_C38 i (run_perm n i) = true.
+Proof.
+  intro Hn. unfold agree_C38. apply existsb_exists. exists n. split; [exact Hn|apply val_eqb_refl].
+Qed.
+
+(* two "Trailer:" keys naming the same trailer: the value sent depends on Go's map iteration order; both outcomes
+   are observations of the model (orders 0 and 1) *)
+Lemma collision_witness :
+  let ops := [OWrite b_hi; OFlush; OSet (s_TrailerPrefix ++ [102;111;111]) [49]; OSet (s_TrailerPrefix ++ b_Foo) [50]] in
+  frames_of (with_perm 0 env_get) ops <> frames_of (with_perm 1 env_get) ops
+  /\ last (frames_of (with_perm 0 env_get) ops) (FD false []) = FH true [(to_lower b_Foo, [50])]
+  /\ last (frames_of (with_perm 1 env_get) ops) (FD false []) = FH true [(to_lower b_Foo, [49])].
+Proof. vm_compute. split; [discriminate|split; reflexivity]. Qed.
+
 (* a corpus case (corpus/C38: was-kf1-declared-unset) as a wire value *)
 Definition real_hop : list bytes :=
   [ [67;111;110;110;101;99;116;105;111;110]; [75;101;101;112;45;65;108;105;118;101];
@@ -1454,3 +1633,102 @@ Definition corpus_case : val :=
   VL [VZ 0; VZ 4096; vLB real_hop; VL [VL [VZ 1; VB b_Trailer; VB b_Foo]; VL [VZ 4; VB b_hi; VZ 1]]].
 Lemma corpus_case_wf : wf_C38 corpus_case = true /\ prop_C38 corpus_case (run_C38 corpus_case) = true.
 Proof. vm_compute. split; reflexivity. Qed.
+
+(* ---------- bufio.Writer.Write never runs out of fuel ---------- *)
+Lemma write_chunk_n e p s fr n s' :
+  write_chunk e false p s = (fr, n, s') -> n = blen p \/ (n = 0 /\ sentH s = false).
+Proof.
+  unfold write_chunk. rewrite <- (wh_sentH e 200 s). set (s0 := write_header e 200 s).
+  destruct (sentH s0) eqn:Es0.
+  - cbn iota beta. destruct (e_head e); [intro H; inversion H; left; reflexivity|].
+    destruct ((blen p =? 0) && negb false) eqn:Ec.
+    + intro H; inversion H. left. apply andb_true_iff in Ec. destruct Ec as [Ec _]. apply Z.eqb_eq in Ec. lia.
+    + destruct (body_frames e false p s0) as [fr2 s2]. intro H; inversion H. left. reflexivity.
+  - destruct (first_headers e false p s0) as [[f s1] es].
+    destruct es; [intro H; inversion H; right; split; reflexivity|].
+    destruct (e_head e); [intro H; inversion H; left; reflexivity|].
+    destruct ((blen p =? 0) && negb false) eqn:Ec.
+    + intro H; inversion H. left. apply andb_true_iff in Ec. destruct Ec as [Ec _]. apply Z.eqb_eq in Ec. lia.
+    + destruct (body_frames e false p s1) as [fr2 s2]. intro H; inversion H. left. reflexivity.
+Qed.
+
+Lemma bw_write_nil e fuel s acc : 0 <= e_bsz e -> blen (buf s) <= e_bsz e -> bw_write fuel e [] s acc <> None.
+Proof.
+  intros Hb Hl.
+  assert (E : (e_bsz e - blen (buf s) <? blen []) = false) by (apply Z.ltb_ge; change (blen (@nil Z)) with 0; lia).
+  destruct fuel; cbn [bw_write]; rewrite E; cbn [andb]; destruct (berr s); discriminate.
+Qed.
+
+Lemma bw_write_S f e p s acc :
+  bw_write (S f) e p s acc =
+  if (e_bsz e - blen (buf s) <? blen p) && negb (berr s) then
+    match buf s with
+    | [] => let '(fr, n, s') := write_chunk e false p s in bw_write f e (skipn (Z.to_nat n) p) s' (acc ++ fr)
+    | _ => let n := Z.to_nat (e_bsz e - blen (buf s)) in
+           let '(fr, s') := bw_flush e false (set_buf s (buf s ++ firstn n p) false) in
+           bw_write f e (skipn n p) s' (acc ++ fr)
+    end
+  else if berr s then Some (acc, s) else Some (acc, set_buf s (buf s ++ p) false).
+Proof. reflexivity. Qed.
+
+(* header already sent, nothing buffered: at most one direct write *)
+Lemma bw_write_fuel1 e fuel p s acc :
+  0 <= e_bsz e -> sentH s = true -> buf s = [] -> bw_write (S fuel) e p s acc <> None.
+Proof.
+  intros Hb Hs Hbuf. rewrite bw_write_S, Hbuf.
+  destruct ((e_bsz e - blen [] <? blen p) && negb (berr s)); [|destruct (berr s); discriminate].
+  destruct (write_chunk e false p s) as [[fr n] s'] eqn:Ew.
+  destruct (write_chunk_n _ _ _ _ _ _ Ew) as [Hn|[_ Hn]]; [|rewrite Hs in Hn; discriminate].
+  destruct (write_chunk_state _ _ _ _ _ _ _ Ew) as [_ [Hb' _]].
+  subst n. rewrite skipn_blen. apply bw_write_nil; [exact Hb|]. rewrite Hb', Hbuf. unfold blen. simpl. lia.
+Qed.
+
+Lemma bw_write_fuel2 e fuel p s acc :
+  0 <= e_bsz e -> buf s = [] -> bw_write (S (S fuel)) e p s acc <> None.
+Proof.
+  intros Hb Hbuf. rewrite bw_write_S, Hbuf.
+  destruct ((e_bsz e - blen [] <? blen p) && negb (berr s)); [|destruct (berr s); discriminate].
+  destruct (write_chunk e false p s) as [[fr n] s'] eqn:Ew.
+  destruct (write_chunk_state _ _ _ _ _ _ _ Ew) as [Hs' [Hb' _]].
+  destruct (write_chunk_n _ _ _ _ _ _ Ew) as [Hn|[Hn _]]; subst n.
+  - rewrite skipn_blen. apply bw_write_nil; [exact Hb|]. rewrite Hb', Hbuf. unfold blen. simpl. lia.
+  - cbn [Z.to_nat skipn]. apply bw_write_fuel1; [exact Hb|exact Hs'|rewrite Hb'; exact Hbuf].
+Qed.
+
+Theorem bw_write_fuel e fuel p s acc : 0 <= e_bsz e -> bw_write (S (S (S fuel))) e p s acc <> None.
+Proof.
+  intros Hb. destruct (buf s) as [|b0 br] eqn:Hbuf; [apply bw_write_fuel2; assumption|].
+  rewrite bw_write_S, Hbuf. cbv zeta.
+  destruct ((e_bsz e - blen (b0 :: br) <? blen p) && negb (berr s)); [|destruct (berr s); discriminate].
+  set (s1 := set_buf s ((b0 :: br) ++ firstn (Z.to_nat (e_bsz e - blen (b0 :: br))) p) false).
+  destruct (bw_flush e false s1) as [fr1 s2] eqn:Ef.
+  unfold bw_flush in Ef. cbn [berr s1 set_buf buf] in Ef.
+  destruct ((b0 :: br) ++ firstn (Z.to_nat (e_bsz e - blen (b0 :: br))) p) as [|c0 cr] eqn:Eb; [discriminate|].
+  destruct (write_chunk e false (c0 :: cr) s1) as [[fr n] s'] eqn:Ew.
+  destruct (write_chunk_state _ _ _ _ _ _ _ Ew) as [Hs' _].
+  destruct (n <? blen (c0 :: cr)); inversion Ef; subst.
+  - (* short write: the sticky error ends the loop *)
+    rewrite bw_write_S. cbn [berr set_buf]. rewrite andb_false_r. discriminate.
+  - apply bw_write_fuel2; [exact Hb|reflexivity].
+Qed.
+
+(* so no Write ever reports fuel exhaustion: every result is 0 (accepted) or 1 (refused) *)
+Theorem write_results_01 e ops fr res s :
+  0 <= e_bsz e -> run_handler e ops = (fr, res, s) -> forallb (fun r => (r =? 0) || (r =? 1)) res = true.
+Proof.
+  intros Hb. unfold run_handler.
+  destruct (run_ops e ops rws0) as [[fr1 s1] res1] eqn:Er. destruct (do_flush e true s1) as [fr2 s2].
+  intro H; inversion H; subst. clear H. revert Er. generalize rws0. revert fr1 s1 res.
+  induction ops as [|o r IH]; intros fr1 s1 res s0; simpl.
+  - intro H; inversion H; reflexivity.
+  - destruct (step e o s0) as [[f1 t1] r1] eqn:Es. destruct (run_ops e r t1) as [[f2 t2] r2] eqn:Er2.
+    intro H; inversion H; subst. rewrite forallb_app, (IH _ _ _ _ Er2), andb_true_r.
+    destruct o; cbn [step] in Es; cbv zeta in Es; try (inversion Es; reflexivity).
+    + destruct (negb (body_allowed (status (write_header e 200 s0)))); [inversion Es; reflexivity|].
+      match type of Es with context [if ?c then _ else _] => destruct c end; [inversion Es; reflexivity|].
+      match type of Es with context [bw_write fuel_write e p ?S0 []] =>
+        assert (Hf : bw_write fuel_write e p S0 [] <> None) by (apply (bw_write_fuel e 3); exact Hb);
+        destruct (bw_write fuel_write e p S0 []) as [[x1 x2]|] end; [|exfalso; apply Hf; reflexivity].
+      inversion Es; subst. destruct (berr t1); reflexivity.
+    + destruct (do_flush e false s0) as [x1 x2]. inversion Es; reflexivity.
+Qed.
